@@ -490,6 +490,11 @@ class Executor:
 
     # -------- arithmetic
     def binop(self, op, a, b):
+        if isinstance(a, Ref) and isinstance(b, Ref) and op in ("Eq", "Ne"):
+            # raw-pointer identity (`ptr::eq`, `a as *const _ == b as *const _`): two references are the same address iff they
+            # designate the same place of the store
+            same = (a.cell, a.path) == (b.cell, b.path)
+            return Sc("bool", z3.BoolVal(same if op == "Eq" else not same))
         if isinstance(a, Ref) or isinstance(b, Ref):
             raise Inconclusive("binop on references")
         if not isinstance(a, Sc) or not isinstance(b, Sc):
@@ -628,6 +633,16 @@ class Executor:
         st = State()
         if cells:
             st.cells.update(cells)
+            # a run that continues from the final store of an earlier run must not reuse that run's cell names
+            # (frame ids `f<n>`, heap cells ("box"|"gc"|"tmp"|"view", n))
+            hi = 0
+            for k in cells:
+                if isinstance(k, tuple) and k:
+                    if isinstance(k[0], str) and re.fullmatch(r"f\d+", k[0]):
+                        hi = max(hi, int(k[0][1:]))
+                    elif len(k) == 2 and isinstance(k[1], int) and k[0] in ("box", "gc", "tmp", "view"):
+                        hi = max(hi, k[1])
+            st.nframe = hi
         if pc:
             st.pc = list(pc)
         return self.run_func(func, args, st)
